@@ -62,7 +62,18 @@ TIterTeardown ==
          \cup Flg(R.status = "exited:0" /\ R.r.drops # 1, "write_end_not_dropped_exactly_once")
          \cup Flg(R.status = "exited:0" /\ R.r.stray # 0, "written_to_after_close")
 
-TraceSpec == TInit /\ [][TPipe \/ TPipeReject \/ TIterPipe \/ TIterTeardown]_tvars
+\* Duplicates of one write end registered for two signals (Pipe.tla: the registration owns the
+\* descriptor NUMBER it was given, not the open file behind it): removing one registration closes
+\* that number only; 2 deliveries before and 3 after the removal are 5 bytes, and no end of file.
+TPipeSibling ==
+    /\ l <= Len(Rec) /\ R.e = "pipe_sibling" /\ l' = l + 1
+    /\ IF R.status # "exited:0"
+       THEN viol' = viol \cup {"sibling_probe_died"}
+       ELSE viol' = viol
+              \cup Flg(R.r.before + R.r.after # 5, "sibling_descriptor_stopped_delivering")
+              \cup Flg(R.r.eof = 1, "write_side_shut_down_for_every_duplicate")
+
+TraceSpec == TInit /\ [][TPipe \/ TPipeReject \/ TIterPipe \/ TIterTeardown \/ TPipeSibling]_tvars
 TraceAccepted ==
     LET d == TLCGet("stats").diameter IN
     IF d - 1 = Len(Rec) THEN TRUE ELSE Print(<<"TRACE_REJECTED", d, Rec[d]>>, FALSE)
